@@ -3,6 +3,7 @@
   Theorems over Model/CancelOnShutdown.lean: all interleavings of any number of submitters, completions and
   shutdown callers.
 -/
+import MoreExec.Gen.K10
 import MoreExec.Model.CancelOnShutdown
 
 namespace MoreExec.CoS
@@ -226,5 +227,11 @@ def demoRun : List Act :=
   [.subEnter 1, .subAdd 1 10, .subExit 1, .subEnter 2, .subAdd 2 11, .subExit 2, .fdone 10, .discard 10, .sdFlip 3, .subRefuse 1,
    .sdSnap 3, .sdCancel 3 11, .sdDelegate 3, .sdRet 3, .sdNoop 4]
 example : ((run init demoRun).map (fun s => (s.cancels, s.delegateShut, s.returned, s.refused))) = some ([11], 1, [3], 1) := by decide
+
+/-- (the source of `CancelOnShutdownExecutor`, regenerated) the sweep works on a copy of the set taken under `_lock`, asks every
+member of the copy to cancel - one unconditional `cancel()` each, no early exit -, shuts the delegate down only afterwards; `submit()`
+tracks the future under `_lock` inside the gate and untracks it by a done-callback: the shape the model's `copy` / `sweep` / `add`
+actions assume. -/
+theorem C10_source_facts : MoreExec.Gen.K10.cosSweepWellFormed = true := by decide
 
 end MoreExec.CoS
